@@ -29,7 +29,8 @@ GENERATED = [tr.OUT, tr_steady.OUT, tr_variants.OUT]
 CASE_DEPS = ["model/Ford.vo", "model/FordSteady.vo", "model/VariantList.vo"]
 ALLOWED_AXIOMS: set = set()          # every theorem is closed under the global context
 TRUSTED = [
-    "translator/ford.py (tolerance predicates, classifiers, token-level scalar rules -> gen/FordGen.v)",
+    "translator/ford.py (tolerance predicates, classifiers, token-level scalar rules -> gen/FordGen.v; the statements of "
+    "_solve_measurement_equations and left_div are compared literally with the ones modelled by solve_measurement)",
     "translator/fordsteady.py (the twelve blocks of AB, FF, GG and k of solve_steady_linear_nonflat -> gen/FordSteadyGen.v; every "
     "other statement of the function and the (linear, non-flat) dispatch are compared literally)",
     "translator/variantlist.py (the list-filling statement of Mixin.expand_num_variants -> gen/VariantListGen.v; num_variants, "
@@ -65,7 +66,8 @@ MANIFEST = {
                   "a steady state of the system is a fixed point of the recursion and level = steady + deviation period by period; the "
                   "same along a GROWING steady-state path (three consecutive points of an affine path satisfying the system are one step of the "
                   "recursion; C = -(A xi + B xi_lagged) makes that hold by construction); the deviation path satisfies the homogeneous "
-                  "system; measurement block; STABLE iff #unstable = #forward-looking, the three "
+                  "system; measurement block, for any invertible F (also non-diagonal / non-symmetric: measurement equations referring to other "
+                  "measurement variables), and (Z, H, D) are the ONLY matrices satisfying it, a transposed solve is refuted; STABLE iff #unstable = #forward-looking, the three "
                   "eigenvalue classes partition, and the QZ ordering predicate agrees with the classifier (predicates regenerated from "
                   "fords/solutions.py); the recursion matrix has exactly the generalised eigenvalues of the pencil block ordered first. "
                   "Steady state of linear non-flat models (solve_steady_linear_nonflat, the blocks of the stacked matrices regenerated from "
@@ -1628,7 +1630,9 @@ def correspondence(ctx) -> CorrResult:
     res.distinct_nontrivial = dist["scenarios"] + 3 * dist["models"] + dist["variant_history_calls"]
     res.distribution = dist
     res.samples = samples
-    res.rule = ("one generated determinate model (1-4 variables, lags/leads <= 3, log-variables, constants, measurement block, "
+    res.rule = ("one generated determinate model (1-4 variables, lags/leads <= 3, log-variables, constants, measurement block with 0-3 "
+                "measurement variables, which in 70% of the models with >= 2 of them refer to OTHER measurement variables so that F is "
+                "neither diagonal nor symmetric, "
                 "optionally a product term) -> Simultaneous.from_string/assign/steady/solve with QZ and Schur recorded; checks per "
                 "model: 15 solution matrices, the constant vector C of models not declared linear (from the steady-state path, also "
                 "a growing one: 40% of the draws are balanced-growth versions with a stochastic trend), forward expansion, token vectors + dynamic identities (exact), eigenvalue "
